@@ -26,6 +26,38 @@ type Engine struct{}
 
 func (Engine) Name() string { return "readsim" }
 
+// Process-wide lazily initialised state (the schema registry decompresses a
+// schema on first use, under a Once) would make the first run of a process
+// take extra schedule points that a replay in a fresh process does not see at
+// the same place.  Warm it up outside any simulated run.
+func init() {
+	for _, id := range []uint64{air.Regression_TypeID, air.Bag_TypeID, air.Z_TypeID} {
+		_, seg, err := capnp.NewMessage(capnp.SingleSegment(nil))
+		if err != nil {
+			panic(err)
+		}
+		st, err := capnp.NewRootStruct(seg, capnp.ObjectSize{DataSize: 24, PointerCount: 4})
+		if err != nil {
+			panic(err)
+		}
+		if _, err := text.Marshal(id, st); err != nil {
+			panic("readsim warm-up: " + err.Error())
+		}
+	}
+	_, seg, _ := capnp.NewMessage(capnp.SingleSegment(nil))
+	bg, _ := air.NewRootBag(seg)
+	var v bag
+	if err := pogs.Extract(&v, air.Bag_TypeID, bg.Struct); err != nil {
+		panic("readsim warm-up: " + err.Error())
+	}
+	_, seg, _ = capnp.NewMessage(capnp.SingleSegment(nil))
+	rg, _ := air.NewRootRegression(seg)
+	var w regression
+	if err := pogs.Extract(&w, air.Regression_TypeID, rg.Struct); err != nil {
+		panic("readsim warm-up: " + err.Error())
+	}
+}
+
 type run struct {
 	s       *simrt.Sched
 	prop    string
